@@ -209,7 +209,8 @@ def run(chk, runner_ok):
         ar = AddRemove()
         left = rng.sample(uni, rng.randint(0, len(uni)))
         right = rng.sample(uni, rng.randint(0, len(uni)))
-        ar.set_left(list(left))
+        # the left side may be any iterable (ContentComparer passes KeyedTuple.keys(), a generator)
+        ar.set_left(iter(list(left)) if n % 2 else list(left))
         ar.set_right(list(right))
         for step in range(rng.randint(2, 5)):
             op = rng.choice(["iter", "iter", "right", "left"])
@@ -218,7 +219,7 @@ def run(chk, runner_ok):
                 ar.set_right(iter(right))
             elif op == "left":
                 left = rng.sample(uni, rng.randint(0, len(uni)))
-                ar.set_left(list(left))
+                ar.set_left((x for x in left) if (n + step) % 2 else list(left))
             out = [[LABEL[a], k] for a, k in ar]
             rcases.append((list(left), list(right)))
             rimpl.append(out)
